@@ -302,6 +302,9 @@ func r2report(c *core.Ctx, m *drvModel) {
 
 // r2reportMain: AddClient(clientip, teid, upfip) with the three results of one EstablishPDU call.
 func r2reportMain(c *core.Ctx, R string) {
+	if mainUnreadable(c, R) {
+		return
+	}
 	mainFn := mustFunc(c, pMain, "main")
 	n := 0
 	for _, body := range mainBodies(c) {
@@ -457,6 +460,9 @@ func r2main(c *core.Ctx) {
 	c.Rule(RC, "every ueList[i]/pduList[i] in main sits in a loop whose bound is provably <= the number of registrations; service/release bounds <= establishment bound")
 	c.Rule(RO, "per mode: connect < NG setup < register* < establish* < service* < release* < deregister*, never backwards")
 
+	if mainUnreadable(c, RC+"/R2.order") {
+		return
+	}
 	nIdxAll := 0
 	for _, body := range modeBodies(c) {
 		nIdxAll += r2mainBody(c, RC, RO, body)
